@@ -624,6 +624,11 @@ func (l *Lexer) isAccountStartRune(r rune) bool {
 }
 
 func (l *Lexer) isCurrencySymbol(r rune) bool {
+	return IsCurrencySymbol(r)
+}
+
+// IsCurrencySymbol reports whether r alone is read as a commodity symbol ("$5", "5 €").
+func IsCurrencySymbol(r rune) bool {
 	return r == '$' || r == '€' || r == '£' || r == '¥' || r == '₽' || r == '₴'
 }
 
